@@ -50,6 +50,7 @@ def _case(draw):
     ispec["tight"] = False
     return {"sys": spec, "int": ispec, "q": draw(vec(n, -1.2, 1.2)), "p": draw(vec(n, -1.5, 1.5)),
             "z": draw(vec(n, -2.0, 2.0)), "dir": draw(st.sampled_from([1, -1])), "n": draw(st.integers(1, 6)),
+            "dt_sign": draw(st.sampled_from([1, -1])),
             "mode": mode}
 
 
@@ -169,7 +170,10 @@ def run_case(case) -> Result:
     solver = {"newton": ms.solve_projection_onto_manifold_newton,
               "quasi": ms.solve_projection_onto_manifold_quasi_newton,
               "linesearch": ms.solve_projection_onto_manifold_newton_with_line_search}[proj]
-    dt = case["dir"] * ispec["eps"] / ispec["n_inner"]
+    # the time step is an argument of the solver, not tied to the state's direction flag (the integrator's own
+    # reversibility check retracts a dir=+1 state backwards): both signs for either direction
+    dt = case.get("dt_sign", case["dir"]) * ispec["eps"] / ispec["n_inner"]
+    res.classes.append("solver:dt-sign-" + ("matches-dir" if dt * case["dir"] > 0 else "opposite-to-dir"))
     prev = state.copy()
     st = state.copy()
     system.h2_flow(st, dt)
